@@ -45,6 +45,62 @@ def one(f):
     return frozenset([f])
 
 
+_HS_PARAMS = {}
+
+
+def _syntactic_hs(P, G, e, depth=0):
+    """is expression e of function G the half-rate flag (a halfrate_p call, the flag field, a local every definition of which is
+    one of those, or a parameter of G that is itself always given the flag)"""
+    n = G.ex[G.strip_casts(e)]
+    if n['k'] == 'call' and n['callee'].get('d') in ('vorbis_synthesis_halfrate_p', 'ov_halfrate_p'):
+        return True
+    if n['k'] == 'member' and n.get('field') == 'halfrate_flag':
+        return True
+    if n['k'] == 'ref' and n['decl'].get('kind') == 'param' and depth < 3:
+        return n['decl'].get('id') in hs_params(P, G, depth + 1)
+    if n['k'] == 'ref' and n['decl'].get('kind') == 'var' and depth < 3:
+        vid = n['decl']['id']
+        ds = []
+        for q in G.pos:
+            x = G.ex[q]
+            if x['k'] == 'decl':
+                ds += [v['init'] for v in x['vars'] if v.get('id') == vid and v.get('init')]
+            elif x['k'] == 'assign':
+                l = G.ex[G.strip_casts(x['c'][0])]
+                if l['k'] == 'ref' and l['decl'].get('id') == vid:
+                    if x['op'] != '=':
+                        return False
+                    ds.append(x['c'][1])
+        return bool(ds) and all(_syntactic_hs(P, G, d, depth + 1) for d in ds)
+    return False
+
+
+def hs_params(P, F, depth=0):
+    """ids of the integer parameters of a file-local function that receive the half-rate flag at every call site"""
+    key = P.key(F)
+    if key in _HS_PARAMS:
+        return _HS_PARAMS[key]
+    _HS_PARAMS[key] = set()
+    if not F.static or depth > 2:
+        return set()
+    sites = []
+    for G in P.functions():
+        if G.file != F.file:
+            continue
+        for c in G.calls(F.name):
+            if key in P.call_targets(G, c):
+                sites.append((G, c))
+    out = set()
+    if sites:
+        for i, p_ in enumerate(F.params):
+            if p_.get('t') not in ('int', 'long'):
+                continue
+            if all(i < len(G.ex[c]['c']) and _syntactic_hs(P, G, G.ex[c]['c'][i], depth) for (G, c) in sites):
+                out.add(p_['id'])
+    _HS_PARAMS[key] = out
+    return out
+
+
 class Frames(Hooks):
     """tag analysis; results: self.stores = [(eid, key, frame set, unit set)] for stores to tracked sinks,
     self.compares = [(eid, lhs frames, rhs frames)], self.unit_errors = [(eid, message)]"""
@@ -58,7 +114,7 @@ class Frames(Hooks):
         self.field_stores = []   # (eid, unit of the field, unit set stored) for stores to FIELD_UNITS fields
         self.reads = []          # (call eid, unit set of the count argument) for vorbis_synthesis_read
         self.loops = absint.cfg.loops(F)
-        self.hs_vars = set()     # locals holding the half-rate flag
+        self.hs_vars = set(hs_params(P, F))     # locals holding the half-rate flag (and parameters that always receive it)
         self.linkkeys = {}       # link expression text -> K4 location key
         self._prefix_loops()
 
